@@ -216,6 +216,105 @@ def describe(case):
                 schedule=[list(map(str, r)) for r in case["sched"]], observed=[str(o) for o in case["obs"]])
 
 
+
+# ------------------------------------------------------------------ multi-element requests (slices, lists)
+
+
+def expand_item(spec, shape_hint):
+    """spec: entries int | ["s", start, stop] | ["l", [..]]  ->  (item as the user writes it, element indices in
+    the order in which they are EVALUATED (row-major, as np.where), positions of these elements in the flattened
+    result).  shape_hint: an upper bound of every axis (blocks, orders)"""
+    import numpy as np
+
+    item = tuple(slice(x[1], x[2]) if (isinstance(x, list) and x[0] == "s") else (list(x[1]) if isinstance(x, list) else x) for x in spec)
+    pos = np.arange(int(np.prod(shape_hint))).reshape(shape_hint)
+    sel = np.atleast_1d(pos[item]).reshape(-1)
+    idxs = [tuple(int(i) for i in np.unravel_index(int(q), shape_hint)) for q in sel]
+    order = sorted(range(len(idxs)), key=lambda k: idxs[k])
+    # an element selected twice by a list is evaluated once
+    ev, seen = [], set()
+    for k in order:
+        if idxs[k] not in seen:
+            seen.add(idxs[k])
+            ev.append((idxs[k], k))
+    return item, [e for e, _ in ev], [k for _, k in ev]
+
+
+def observe_multi(series_dict, name, spec, shape_hint):
+    """-> ('vals', [canonical value per evaluated element]) | ('exn', class)"""
+    import numpy as np
+    from pymablock.series import zero
+
+    item, elems, where = expand_item(spec, shape_hint)
+    try:
+        v = series_dict[name][item]
+    except BaseException as e:  # noqa: BLE001
+        return ("exn", PG.exn_class(e)), elems
+    if isinstance(v, np.ma.MaskedArray):
+        flat = list(v.filled(zero).reshape(-1))
+    elif isinstance(v, np.ndarray) and v.dtype == object:
+        flat = list(v.reshape(-1))
+    else:
+        flat = [v]
+    return ("vals", [PG.from_value(flat[k]) for k in where]), elems
+
+
+def random_multi_requests(rng, names, nb, np_, count):
+    """slices over the order axis, over the blocks, ranges, paired lists - on ANY series name"""
+    out = []
+    for _ in range(count):
+        name = rng.choice(names)
+        i, j = rng.randrange(nb), rng.randrange(nb)
+        kind = rng.choice(["orders", "orders", "blocks", "range", "lists"])
+        rest = [0] * (np_ - 1)
+        if kind == "orders":
+            spec = [i, j, ["s", None, rng.randint(2, 4 if np_ == 1 else 3)]] + rest
+        elif kind == "blocks":
+            spec = [["s", None, None], ["s", None, None], rng.randint(1, 2)] + rest
+        elif kind == "range":
+            spec = [i, j, ["s", 1, 3]] + rest
+        else:
+            spec = [["l", [i, j]], ["l", [j, i]], ["l", [2, 1]]] + rest if np_ == 1 else [i, j, ["l", [2, 0, 1]], ["l", [0, 1, 1]]] + [0] * (np_ - 2)
+        out.append((name, spec))
+    return out
+
+
+def cmobs(o):
+    if o[0] == "exn":
+        return "(MExn %s)" % PG.EXN_COQ.get(o[1], "(UserExn 99)")
+    return "(MVals [%s])" % "; ".join(PG.cobs(x) for x in o[1])
+
+
+def multi_case_terms(case, rng, count=4):
+    """a fresh computation of the case's program, a schedule of multi-element requests (mixed with scalar ones):
+    compared with the Coq evaluator, and every element with a scalar request on a fresh computation"""
+    p, w = case["prog"], case["world"]
+    fn = p["fn"] if p.get("shipped") else PG.load_function(p)
+    series, lin, inputs = build(p, fn, w)
+    nb, np_ = w["nb"], w["np"]
+    shape_hint = (nb, nb) + (5,) * np_
+    reqs = random_multi_requests(rng, case["names"], nb, np_, count)
+    coq_reqs, expected, failures = [], [], []
+    for name, spec in reqs:
+        o, elems = observe_multi(series, name, spec, shape_hint)
+        coq_reqs.append("(TTab, %s, [%s])" % (PG.cstr(name), "; ".join(PG.cidx(e) for e in elems)))
+        expected.append(cmobs(o))
+        # implementation: the same elements one at a time on a fresh computation
+        fresh, _, _ = build(p, fn, w)
+        scal = [observe(fresh, ("tab", name, e)) for e in elems]
+        scal_exn = [x for x in scal if isinstance(x, tuple) and x and x[0] == "exn"]
+        inp = dict(program=p["name"], source=p["source"], shipped=p["name"] if p.get("shipped") else None,
+                   world=PG.world_to_json(w), multi_request=[name, spec])
+        if o[0] == "exn":
+            if not scal_exn:
+                failures.append(dict(what="the multi-element request %s%s raised %s although every element can be requested one at a time" % (name, spec, o[1]), input=inp))
+        elif not scal_exn and list(o[1]) != scal:
+            failures.append(dict(what="the multi-element request %s%s returns values different from the scalar requests on a fresh computation" % (name, spec), input=inp))
+    js = rename_solver(p["json"]) if p.get("shipped") else p["json"]
+    term = "check_mschedule %d %s %s 0 [%s] [%s]" % (EXEC_FUEL, PG.coq_alg(js), world_cfg(p, w), "; ".join(coq_reqs), "; ".join(expected))
+    return term, failures, reqs
+
+
 def tie_seriescomp(ctx):
     n_gen = ctx.n(120, 1200)
     n_ship = ctx.n(20, 200)
@@ -230,13 +329,52 @@ def tie_seriescomp(ctx):
         for o in c["obs"]:
             k = "exn" if (isinstance(o, tuple) and o[0] == "exn") else ("zero" if o == "zero" else "one" if o == "one" else "value")
             dist[k] += 1
+    impl_failures = []
+    for c in cases:
+        if c["prog"].get("shipped"):
+            c["world"]["extra_scope"] = shipped_scope(c["world"])
+            c["world"]["extra_scope"]["solve_sylvester"] = PG.scope_functions()["f_lmul"]
+        tm, fails, mreqs = multi_case_terms(c, ctx.rng, count=ctx.n(3, 6))
+        c["multi"] = [[n, sp] for n, sp in mreqs]
+        terms.append(tm); owners.append((c, "Exec (multi-element requests)"))
+        impl_failures += fails
     bad = core.coq_eval_cases("k_seriescomp", HEADER, terms, shard=8, timeout=1500, jobs=16)
     disagreements = []
     for i in bad:
         c, what = owners[i]
-        disagreements.append(dict(what="series_computation differs from the Coq %s model" % what, input=describe(c)))
+        d = describe(c)
+        d["multi_requests"] = c.get("multi")
+        disagreements.append(dict(what="series_computation differs from the Coq %s model" % what, input=d))
+    for f in impl_failures:
+        disagreements.append(dict(what="(implementation) " + f["what"], input=f["input"]))
     nontrivial = len({core.sha(core.canon(describe(c))) for c in cases if any(sum(r[2][2:]) >= 2 for r in c["sched"])})
     PG.cleanup()
     return dict(cases=len(cases), nontrivial=nontrivial,
                 rule="distinct (program, inputs, schedule) with a request at total order >= 2; every request compared exactly with Exec, value outcomes with Interp",
-                samples=[describe(c) for c in cases[:1]], distribution=dist, disagreements=disagreements)
+                samples=[describe(c) for c in cases[:1]], distribution=dist, disagreements=disagreements,
+                impl_failures=impl_failures)
+
+
+def replay_multi(inp):
+    """re-run one multi-element request of a failure input; -> description or None"""
+    w = PG.world_from_json(inp["world"])
+    if inp.get("shipped"):
+        p = [q for q in shipped_programs() if q["name"] == inp["shipped"]][0]
+        fn = p["fn"]
+        w["extra_scope"] = shipped_scope(w)
+        w["extra_scope"]["solve_sylvester"] = PG.scope_functions()["f_lmul"]
+    else:
+        p = PG.program_from_source(inp["source"])
+        fn = PG.load_function(p)
+    name, spec = inp["multi_request"]
+    shape_hint = (w["nb"], w["nb"]) + (5,) * w["np"]
+    series, _, _ = build(p, fn, w)
+    o, elems = observe_multi(series, name, spec, shape_hint)
+    fresh, _, _ = build(p, fn, w)
+    scal = [observe(fresh, ("tab", name, e)) for e in elems]
+    scal_exn = [x for x in scal if isinstance(x, tuple) and x and x[0] == "exn"]
+    if o[0] == "exn" and not scal_exn:
+        return "the multi-element request %s%s raised %s although every element can be requested one at a time" % (name, spec, o[1])
+    if o[0] != "exn" and not scal_exn and list(o[1]) != scal:
+        return "the multi-element request %s%s returns values different from the scalar requests" % (name, spec)
+    return None
